@@ -191,7 +191,6 @@ class PolyhedralProjection:
         Returns:
             acos(1 - x)
         """
-        if x < 1e-3:
-            return (2 * x + x * x * x / 3)
-        else:
-            return math.acos(1 - 2 * x * x) 
+        # acos(1 - 2 * x * x) == 2 * asin(x). The asin form has no cancellation, whereas acos(1 - 2 * x * x)
+        # loses half of its digits for small x (5e-14 rad just above the former series cut-over at 1e-3)
+        return 2 * math.asin(x) 
